@@ -63,14 +63,15 @@ type refCursor struct {
 }
 
 type linst struct {
-	c      *lcfg
-	lst    *mlink.List[int]
-	cur    []*mlink.Cursor[int]
-	ids    []int        // reference list: entry ids in order (value == id)
-	dead   map[int]bool // detached entry ids
-	rc     []refCursor
-	nextID int
-	cnt    *lcounters
+	c             *lcfg
+	lst           *mlink.List[int]
+	cur           []*mlink.Cursor[int]
+	ids           []int        // reference list: entry ids in order (value == id)
+	dead          map[int]bool // detached entry ids
+	rc            []refCursor
+	nextID        int
+	cnt           *lcounters
+	emptied, used bool
 }
 
 type lcounters struct{ staleUses, staleTruncate, setAtEnd, removes, truncates int64 }
@@ -118,7 +119,7 @@ func (s *linst) Enabled() []lop {
 
 func (s *linst) Key() string {
 	var sb strings.Builder
-	fmt.Fprintf(&sb, "n%d", len(s.ids))
+	fmt.Fprintf(&sb, "n%d e%v", len(s.ids), s.emptied)
 	for i, c := range s.rc {
 		switch {
 		case !c.set:
@@ -276,6 +277,11 @@ func (s *linst) Apply(o lop, check bool) *mc.Failure {
 			}
 		}
 	}
+	if len(s.ids) > 0 {
+		s.used = true
+	} else if s.used {
+		s.emptied = true
+	}
 	if !check {
 		return nil
 	}
@@ -418,7 +424,12 @@ func (s *seqInst) Enabled() []sop {
 	return ops
 }
 
-func (s *seqInst) Key() string { return "" }
+func (s *seqInst) Key() string {
+	if s.kind == "stack" {
+		return fmt.Sprintf("%d/%d", len(s.ref), stackCap(s.st))
+	}
+	return ""
+}
 
 func (s *seqInst) Apply(o sop, check bool) *mc.Failure {
 	s.next++
@@ -544,11 +555,12 @@ type scfg struct {
 	Kind  string `json:"kind"`
 	Depth int    `json:"depth"`
 	Max   int    `json:"max_len"`
+	Merge bool   `json:"merge_states"`
 }
 
 func makeSeqBFS(c *scfg) *mc.BFS[sop] {
 	return &mc.BFS[sop]{
-		Name: "seq-" + c.Kind, Config: c, NRoots: 2, Merge: false, MaxDepth: c.Depth,
+		Name: "seq-" + c.Kind, Config: c, NRoots: 2, Merge: c.Merge, MaxDepth: c.Depth,
 		Root: func(i int) (mc.Inst[sop], *mc.Failure) {
 			s := &seqInst{kind: c.Kind, max: c.Max}
 			if c.Kind == "stack" {
@@ -928,9 +940,20 @@ func seqHarness(kind string) mc.Harness {
 			if kind == "queue" {
 				c.Depth = mc.Pick(r, 10, 12)
 			}
+			if kind == "stack" && r.Hooks {
+				// The stack's state is (length, capacity of the backing slice):
+				// merge on it and search to closure up to a larger length, so that
+				// behaviour that depends on capacity (growth, shrinking) is reached.
+				c.Merge, c.Depth, c.Max = true, 0, mc.Pick(r, 70, 300)
+			}
 			makeSeqBFS(c).Run(r)
 			r.Bound("depth", c.Depth)
-			r.Rule(kind + ": every history up to the depth bound from the zero value and from the constructor (no state merging)")
+			r.Bound("max_len", c.Max)
+			if c.Merge {
+				r.Rule("stack: BFS to closure over Push/Add/Pop/Clear up to the length bound, states merged by (length, capacity)")
+			} else {
+				r.Rule(kind + ": every history up to the depth bound from the zero value and from the constructor (no state merging)")
+			}
 		},
 		Replay: func(c mc.Case) *mc.Failure {
 			var cf scfg
